@@ -415,6 +415,8 @@ class GenFlow:
             tid += 1
         if self.instr_flow or any(t["instr"] for t in self.tasks):
             self.emitters = r.choice([1, 1, 2])
+        elif rich and idx % 5 == 3:
+            self.emitters = 1      # cff.WithEmitter on a flow in which nothing is instrumented: still an argument to evaluate
         self.has_conc = r.random() < 0.7
         self.bare = rich and r.random() < 0.5      # some arguments are bare identifiers, reassigned by the last argument
         self.clock = rich and r.random() < 0.5     # a plain (non-call) argument expression reading the evaluation clock
